@@ -4,7 +4,7 @@ import ast
 from sa import x690, intexpr
 from sa.consteval import (VClass, VDict, VFunc, VInstance, VTag, VTagSet, VTypeId,
                           Unknown, is_unknown)
-from sa.model import AnalysisError, ClassInfo, norm, walk_own
+from sa.model import ancestors, AnalysisError, ClassInfo, norm, walk_own
 from sa.util import chain_partition, if_chain, raises_in
 
 CODECS = ('ber', 'cer', 'der')
@@ -494,6 +494,8 @@ def bool_strictness(ctx, inst):
         raise AnalysisError('no valueDecoder on %s' % inst.ci.short)
     table = dict((b, 'data') for b in range(256))
     found = False
+    octet_vars = set(norm(a.targets[0]) for a in walk_own(m.node) if isinstance(a, ast.Assign) and len(a.targets) == 1 and
+                     isinstance(a.value, ast.Call) and isinstance(a.value.func, ast.Name) and a.value.func.id in ('oct2int', 'ord'))
     for n in walk_own(m.node):
         if not isinstance(n, ast.If):
             continue
@@ -501,6 +503,8 @@ def bool_strictness(ctx, inst):
         if isinstance(par, ast.If) and n in par.orelse:
             continue   # an elif arm, handled with its head
         names = set(x.id for x in ast.walk(n.test) if isinstance(x, ast.Name)) - {'length'}
+        if octet_vars:
+            names &= octet_vars
         for var in sorted(names):
             try:
                 arms, orelse, parts, rest = chain_partition(n, var, range(256), {'length': 1})
@@ -524,7 +528,62 @@ def bool_strictness(ctx, inst):
                 for v in vals:
                     if table[v] != 'raise':
                         table[v] = out
+    if not found:
+        found = _bool_table_lookup(ctx, inst, m, table)
+    if not found:
+        # no guard understood: lax only if the method really raises nothing beyond its length check
+        dep_vars = set(octet_vars)
+        for a in walk_own(m.node):      # one step of data flow: v = f(octet)
+            if isinstance(a, ast.Assign) and len(a.targets) == 1 and isinstance(a.targets[0], ast.Name) and \
+                    any(isinstance(x, ast.Name) and x.id in octet_vars for x in ast.walk(a.value)):
+                dep_vars.add(a.targets[0].id)
+        extra = [r for r in walk_own(m.node) if isinstance(r, ast.Raise) and
+                 any(isinstance(a, ast.If) and any(isinstance(x, ast.Name) and x.id in dep_vars for x in ast.walk(a.test))
+                     for a in ancestors(r, m.node))]
+        if extra:
+            raise AnalysisError('guard on the BOOLEAN content octet in %s not understood' % m.short)
     return table, m, found
+
+
+def _bool_table_lookup(ctx, inst, m, table):
+    """`if octet not in self.T: raise` / `v = self.T.get(octet); if v is None: raise` with T a class-level {int: int}."""
+    consts = {}
+    for k in inst.ci.mro:
+        node = getattr(k, 'node', None)
+        if node is None:
+            continue
+        for st in node.body:
+            if isinstance(st, ast.Assign) and len(st.targets) == 1 and isinstance(st.targets[0], ast.Name) and isinstance(st.value, ast.Dict):
+                try:
+                    d = dict((intexpr.ev(kk, {}), intexpr.ev(vv, {})) for kk, vv in zip(st.value.keys, st.value.values))
+                except intexpr.NotPure:
+                    continue
+                consts.setdefault(st.targets[0].id, d)
+    if not consts:
+        return False
+
+    def table_of(e):
+        if isinstance(e, ast.Attribute) and isinstance(e.value, ast.Name) and e.value.id in ('self', 'cls') and e.attr in consts:
+            return consts[e.attr]
+        return None
+    for n in walk_own(m.node):
+        d = None
+        if isinstance(n, ast.If) and isinstance(n.test, ast.Compare) and len(n.test.ops) == 1 and isinstance(n.test.ops[0], ast.NotIn) \
+                and raises_in(n.body):
+            d = table_of(n.test.comparators[0])
+        elif isinstance(n, ast.Assign) and isinstance(n.value, ast.Call) and isinstance(n.value.func, ast.Attribute) and \
+                n.value.func.attr == 'get' and len(n.value.args) == 1:
+            d = table_of(n.value.func.value)
+            if d is not None:
+                tgt = norm(n.targets[0])
+                guard = [g for g in walk_own(m.node) if isinstance(g, ast.If) and norm(g.test) == '%s is None' % tgt and raises_in(g.body)]
+                if not guard or any(v is None for v in d.values()):
+                    d = None
+        if d is not None:
+            for b in range(256):
+                table[b] = ('const', d[b]) if b in d else 'raise'
+            return True
+    return False
 
 
 def rule_strict(ctx):
